@@ -108,8 +108,13 @@ func (c *coalescing) Run(ctx context.Context, ch chan<- struct{}) error {
 		return errors.New("already running")
 	}
 
-	// Prevent wg race condition on Close and Run.
+	// Prevent wg race condition on Close and Run: register with the wait group while holding the lock, unless the rate
+	// limiter has been closed already (Close waits for whoever registered before it)
 	c.lock.Lock()
+	if c.closed.Load() {
+		c.lock.Unlock()
+		return nil
+	}
 	c.wg.Add(1)
 	c.lock.Unlock()
 	defer c.wg.Done()
@@ -225,6 +230,10 @@ func (c *coalescing) reset() {
 func (c *coalescing) Add() {
 	c.lock.Lock()
 	defer c.lock.Unlock()
+	if c.closed.Load() {
+		// Nothing signals events anymore, and Close does not wait for registrations made after it
+		return
+	}
 	c.pendingEvents++
 	c.wg.Add(1)
 	go func() {
@@ -237,15 +246,17 @@ func (c *coalescing) Add() {
 }
 
 func (c *coalescing) Close() {
-	defer func() {
-		// Prevent wg race condition on Close and Run.
-		c.lock.Lock()
-		c.wg.Wait()
-		c.lock.Unlock()
-	}()
 	if c.closed.CompareAndSwap(false, true) {
 		close(c.closeCh)
 	}
+
+	// Prevent wg race condition on Close and Run: Run and Add register with the wait group while holding the lock and
+	// only if the rate limiter is not closed, so once the lock has been taken here nobody registers anymore.
+	// The lock must not be held while waiting: the Run loop takes it on every iteration, before it can notice that the
+	// rate limiter has been closed.
+	c.lock.Lock()
+	c.lock.Unlock() //nolint:staticcheck
+	c.wg.Wait()
 }
 
 var _ RateLimiter = (*coalescing)(nil)
